@@ -77,10 +77,13 @@ func (m *TimerMap) Remove(key string) bool {
 // has already fired or has been stopped. If the timer does not exist, an error is
 // also returned.
 func (m *TimerMap) Reset(key string, timeout time.Duration) (bool, error) {
-	m.timersMtx.RLock()
-	t, ok := m.timers[key]
-	m.timersMtx.RUnlock()
+	// Hold the lock while stopping and re-arming the timer so that a concurrent Remove() cannot
+	// see the timer in its stopped state (and report that it has already fired) or leave a re-armed
+	// timer behind that is no longer in the map.
+	m.timersMtx.Lock()
+	defer m.timersMtx.Unlock()
 
+	t, ok := m.timers[key]
 	if ok {
 		if t.Stop() {
 			t.Reset(timeout)
